@@ -132,8 +132,27 @@ func runVS(h *common.History, seed uint64) {
 		})
 		h.Tags = append(h.Tags, "restart_under_traffic")
 	}
+	var closeVictim func()
+	if rng.IntN(2) == 0 {
+		// a socket that is closed while datagrams for it are on their way: they are dropped silently, nothing else is disturbed
+		victim, err := nb.ListenPacket("udp4", "1.2.3.5:2500")
+		if err == nil {
+			vdst := &net.UDPAddr{IP: net.ParseIP("1.2.3.5"), Port: 2500}
+			s.Go("writer-to-victim", func() {
+				for k := 0; k < 4; k++ {
+					_, _ = socks[0].WriteTo(pattern(99, k, 12), vdst)
+				}
+			})
+			closeVictim = func() { s.Go("closer", func() { _ = victim.Close() }) }
+			h.Tags = append(h.Tags, "close_under_traffic")
+		}
+	}
 	steps := 10 + rng.IntN(150)
+	closeAt := rng.IntN(steps) // the Close comes somewhere in the middle of the traffic
 	for i := 0; i < steps; i++ {
+		if i == closeAt && closeVictim != nil {
+			closeVictim()
+		}
 		rs := s.Runnable()
 		if len(rs) == 0 {
 			break
